@@ -43,8 +43,69 @@ class Mods(object):
 def ctx():
     global _CTX
     if _CTX is None:
-        _CTX = SymContext(prefixes=("ciderpress",))
+        _CTX = SymContext(prefixes=("ciderpress",), extra_modules=("sklearn.gaussian_process.kernels",))
+        _CTX.post_hooks["sklearn.gaussian_process.kernels"] = _patch_sklearn
     return _CTX
+
+
+def _patch_sklearn(mod):
+    """scipy.spatial.distance helpers used by scikit-learn's kernels: textbook definitions on object arrays"""
+    import numpy as np
+    from ..sym import S, SArr
+    from ..dag import ZERO
+
+    def cdist(XA, XB, metric="euclidean"):
+        if metric != "sqeuclidean":
+            raise ValueError("Unknown Distance Metric: %s" % metric)
+        XA, XB = np.asarray(XA), np.asarray(XB)
+        if XA.ndim != 2 or XB.ndim != 2:
+            raise ValueError("XA and XB must be 2-dimensional arrays")
+        out = np.empty((XA.shape[0], XB.shape[0]), dtype=object).view(SArr)
+        for i in range(XA.shape[0]):
+            for j in range(XB.shape[0]):
+                acc = S(ZERO)
+                for k in range(XA.shape[1]):
+                    d = XA[i, k] - XB[j, k]
+                    acc = acc + d * d
+                out[i, j] = acc
+        return out
+
+    def pdist(X, metric="euclidean"):
+        d = cdist(X, X, metric)
+        n = d.shape[0]
+        out = np.empty((n * (n - 1) // 2,), dtype=object).view(SArr)
+        k = 0
+        for i in range(n):
+            for j in range(i + 1, n):
+                out[k] = d[i, j]
+                k += 1
+        return out
+
+    def squareform(v):
+        v = np.asarray(v)
+        if v.ndim == 2:
+            n = v.shape[0]
+            return np.array([v[i, j] for i in range(n) for j in range(i + 1, n)], dtype=object).view(SArr)
+        m = len(v)
+        n = int(round((1 + (1 + 8 * m) ** 0.5) / 2))
+        out = np.empty((n, n), dtype=object).view(SArr)
+        out[...] = S(ZERO)
+        k = 0
+        for i in range(n):
+            for j in range(i + 1, n):
+                out[i, j] = out[j, i] = v[k]
+                k += 1
+        return out
+
+    def _check_length_scale(X, length_scale):
+        ls = np.squeeze(np.asarray(length_scale, dtype=object))
+        if np.ndim(ls) > 1:
+            raise ValueError("length_scale cannot be of dimension greater than 1")
+        if np.ndim(ls) == 1 and X.shape[1] != ls.shape[0]:
+            raise ValueError("Anisotropic kernel must have the same number of dimensions as data (%d!=%d)" % (ls.shape[0], X.shape[1]))
+        return ls.view(SArr) if isinstance(ls, np.ndarray) else ls
+
+    mod.cdist, mod.pdist, mod.squareform, mod._check_length_scale = cdist, pdist, squareform, _check_length_scale
 
 
 def _sym_load(k):
